@@ -259,6 +259,18 @@ def handleU (ss : Sess) (args : List String) : Sess × String :=
         ({ ss with uf := r.1 }, "u ok bytes=" ++ toHex r.2 ++ " " ++ ufObs r.1)
       else (ss, "u block")
     | none => (ss, "bad-request")
+  | "demand" :: n :: "w" :: _ =>
+    match n.toNat? with
+    | some k =>
+      if UFile.guardRead s k then (ss, "u demand read-returned")
+      else (ss, if UFile.guardWrite (UFile.blockRead s k) then "u demand w returned" else "u demand w block")
+    | none => (ss, "bad-request")
+  | "demand" :: n :: "wc" :: _ =>
+    match n.toNat? with
+    | some k =>
+      if UFile.guardRead s k then (ss, "u demand read-returned")
+      else (ss, if UFile.guardWriteCont (UFile.blockRead s k) then "u demand w returned" else "u demand w block")
+    | none => (ss, "bad-request")
   | ["sk", off] =>
     match off.toInt? with
     | some k => let s' := UFile.seekg s k; ({ ss with uf := s' }, "u ok " ++ ufObs s')
